@@ -415,6 +415,89 @@ fn c03(iters: usize, threads: usize, seed: u64) -> (Vec<String>, String) {
     (fails, format!("stats c03 iterations={iters} threads={threads} keys_told={oks} failed_calls={errs}"))
 }
 
+/// Views shared by reference between threads (C06: "any number of threads may query a view at once"; C19: "sharing
+/// a reader or resolver with ordinary keys and hashers compiles and works"): every thread asks for its own strings,
+/// every answer is checked against what the source handed out.
+fn views(iters: usize, threads: usize, seed: u64) -> (Vec<String>, String) {
+    use lasso::{Rodeo, RodeoReader, RodeoResolver};
+    let mut fails: Vec<String> = Vec::new();
+    let mut lookups = 0usize;
+    for it in 0..iters {
+        let n = 24 + (it % 5) * 8;
+        // same-length words (a torn memo of pointer / length / index would go unnoticed otherwise less often)
+        let words: Vec<String> = (0..n).map(|i| format!("w{:03}-{:02}", i, it % 100)).collect();
+        let (reader, resolver, keys): (RodeoReader<Spur>, RodeoResolver<Spur>, Vec<Spur>) = if it % 2 == 0 {
+            let mut r: Rodeo<Spur> = Rodeo::with_capacity(Capacity::new(4, NonZeroUsize::new(32).unwrap()));
+            let keys: Vec<Spur> = words.iter().map(|w| r.get_or_intern(w)).collect();
+            let mut r2: Rodeo<Spur> = Rodeo::new();
+            for w in &words {
+                r2.get_or_intern(w);
+            }
+            (r.into_reader(), r2.into_resolver(), keys)
+        } else {
+            let t: ThreadedRodeo<Spur> = ThreadedRodeo::with_capacity(Capacity::new(4, NonZeroUsize::new(32).unwrap()));
+            let keys: Vec<Spur> = words.iter().map(|w| t.get_or_intern(w)).collect();
+            let t2: ThreadedRodeo<Spur> = ThreadedRodeo::new();
+            for w in &words {
+                t2.get_or_intern(w);
+            }
+            (t.into_reader(), t2.into_resolver(), keys)
+        };
+        let (reader, resolver, words, keys) = (Arc::new(reader), Arc::new(resolver), Arc::new(words), Arc::new(keys));
+        let arrived = Arc::new(AtomicUsize::new(0));
+        let mut hs = Vec::new();
+        for t in 0..threads {
+            let (reader, resolver, words, keys, arrived) = (reader.clone(), resolver.clone(), words.clone(), keys.clone(), arrived.clone());
+            let mut r = Rng::new(seed ^ ((it as u64) << 20) ^ ((t as u64) << 4) ^ 0x71e5);
+            hs.push(std::thread::spawn(move || {
+                let mut bad: Vec<String> = Vec::new();
+                let mine: Vec<usize> = (0..words.len()).filter(|i| i % threads == t % words.len().max(1) || threads > words.len()).collect();
+                spin_barrier(&arrived, threads);
+                let mut done = 0usize;
+                for j in 0..3000 {
+                    let i = mine[(j + r.below(3) as usize) % mine.len()];
+                    let (w, k) = (&words[i], keys[i]);
+                    match reader.get(w.as_str()) {
+                        Some(g) if g == k => {}
+                        other => bad.push(format!("shared-view-wrong-answer: reader.get({w:?}) = {:?}, the key is {}", other.map(|x| x.into_usize()), k.into_usize())),
+                    }
+                    if !reader.contains(w.as_str()) || !reader.contains_key(&k) {
+                        bad.push(format!("shared-view-wrong-answer: reader.contains / contains_key false for {w:?}"));
+                    }
+                    if reader.try_resolve(&k) != Some(w.as_str()) || reader.resolve(&k) != w.as_str() {
+                        bad.push(format!("shared-view-wrong-answer: reader resolves key {} to {:?} instead of {w:?}", k.into_usize(), reader.try_resolve(&k)));
+                    }
+                    // (the resolver was filled in the same order: same keys)
+                    if resolver.try_resolve(&k) != Some(w.as_str()) {
+                        bad.push(format!("shared-view-wrong-answer: resolver resolves key {} to {:?} instead of {w:?}", k.into_usize(), resolver.try_resolve(&k)));
+                    }
+                    if j % 512 == 0 && (reader.len() != words.len() || reader.iter().count() != words.len() || resolver.len() != words.len()) {
+                        bad.push("shared-view-wrong-answer: len / iteration count changed under concurrent readers".to_string());
+                    }
+                    done += 4;
+                    if bad.len() > 3 {
+                        break;
+                    }
+                }
+                (bad, done)
+            }));
+        }
+        for h in hs {
+            let (bad, done) = h.join().unwrap();
+            lookups += done;
+            for b in bad {
+                if fails.len() < 20 {
+                    fails.push(format!("ORACLE C06 {b} ({threads} threads sharing one view, iteration {it}, seed {seed})"));
+                }
+            }
+        }
+        if !fails.is_empty() {
+            break;
+        }
+    }
+    (fails, format!("stats views iterations={iters} threads={threads} lookups={lookups}"))
+}
+
 fn main() {
     let a: Vec<String> = std::env::args().collect();
     // remember the first panic (message and location) of any thread
@@ -430,6 +513,7 @@ fn main() {
     let r = std::panic::catch_unwind(|| match a[1].as_str() {
         "c09" => c09(iters, threads, seed),
         "c03" => c03(iters, threads, seed),
+        "views" => views(iters, threads, seed),
         _ => c05(iters, threads, seed),
     });
     let out = std::io::stdout();
